@@ -8,6 +8,7 @@ extern "C" void proof_cfg_count()  { VASSERT(C01, cfg_count_rec(0) == VM_NCFG, "
 extern "C" { extern const int ck0, ck1, ck2, ck3, ck4, ck5, ck6, ck7; }
 extern "C" void step_immediate() { body_immediate(ck0, ck1); }                 // kind, destination
 extern "C" void step_update()    { body_update((unsigned) ck0, ck1, ck2, ck3); } // configuration, issuer (-1 none), kind, destination
+extern "C" void step_queue_overrun() { body_queue_overrun(); }
 extern "C" void step_queued2()   { body_queued2(ck0, ck1, ck2, ck3); }          // kind1, dest1, kind2, dest2
 extern "C" void step_order_update() { body_order_update((unsigned) ck0); }
 extern "C" void step_order_react()  { body_order_react((unsigned) ck0); }
@@ -30,6 +31,9 @@ extern "C" void step_utilize_nested() { body_utilize_nested(ck0); }
 #endif
 #ifdef VM_PLANS
 extern "C" void step_plan() { body_plan((unsigned) ck0, ck1, ck2, ck3); }        // configuration, plan shape, acting state, action (1 succeed / 2 fail)
+#ifdef VM_NESTED_PLANS
+extern "C" void step_plan_nested() { body_plan_nested(ck0); }
+#endif
 #endif
 #ifdef VM_PAYLOAD
 extern "C" void step_payload() { body_payload(ck0, ck1, ck2, ck3); }                 // dest1, has payload 1, dest2 (0 = none), has payload 2
